@@ -44,6 +44,27 @@ def subst(e, env, depth=0):
     return Sub().visit(copy.deepcopy(e))
 
 
+def rise_guard(test, newv, strict):
+    """the test admits only states where `newv` exceeds the previous best (or, in an `or`, no clearance exists yet)"""
+    if isinstance(test, ast.BoolOp) and isinstance(test.op, ast.Or):
+        rise = [v for v in test.values if rise_guard(v, newv, strict)]
+        rest = [v for v in test.values if not rise_guard(v, newv, strict)]
+        return bool(rise) and all(
+            isinstance(v, ast.Compare) and len(v.ops) == 1 and is_attr(v.left, 'highest_cleared_index')
+            and isinstance(v.ops[0], ast.Lt) and ast.unparse(v.comparators[0]) == '0' for v in rest)
+    if isinstance(test, ast.BoolOp) and isinstance(test.op, ast.And):
+        return any(rise_guard(v, newv, strict) for v in test.values)
+    if isinstance(test, ast.Compare) and len(test.ops) == 1:
+        l, r, op = test.left, test.comparators[0], test.ops[0]
+        up = (ast.Gt,) if strict else (ast.Gt, ast.GtE)
+        dn = (ast.Lt,) if strict else (ast.Lt, ast.LtE)
+        if is_attr(r, 'highest_cleared') and isinstance(op, up) and (newv is None or ast.unparse(l) == newv) and not is_attr(l, 'highest_cleared'):
+            return True
+        if is_attr(l, 'highest_cleared') and isinstance(op, dn) and (newv is None or ast.unparse(r) == newv) and not is_attr(r, 'highest_cleared'):
+            return True
+    return False
+
+
 def is_attr(e, name):
     return isinstance(e, ast.Attribute) and e.attr == name and isinstance(e.value, ast.Name) and e.value.id == 'self'
 
@@ -62,6 +83,7 @@ def run(ctx, repo):
     ctx.rule('R2', 'ranking key roles: (-best, x at best index, that + x before it); sort key (ranking_key, old position); '
                    'places copied on equal keys else index+1; place hides athletes without a clearance')
     ctx.rule('R3', '_old_pos is never read outside the sort key')
+    ctx.rule('R5', 'every store to highest_cleared_index outside __init__ is guarded by a strict rise of the best (or no clearance yet)')
     ctx.rule('R4', 'in the tie-for-first branch of _rank the state becomes jumpoff or drawn, never finished/won')
 
     # ---- R1
@@ -86,7 +108,9 @@ def run(ctx, repo):
                     p = getattr(n, '_parent', None)
                     c = n
                     while p is not None and p is not f:
-                        if isinstance(p, ast.If) and c in p.body and isinstance(p.test, ast.Compare) and len(p.test.ops) == 1:
+                        if isinstance(p, ast.If) and c in p.body and rise_guard(p.test, ast.unparse(v), strict=False):
+                            ok = True
+                        elif isinstance(p, ast.If) and c in p.body and isinstance(p.test, ast.Compare) and len(p.test.ops) == 1:
                             l, r = p.test.left, p.test.comparators[0]
                             op = p.test.ops[0]
                             prev_l = isinstance(l, ast.Attribute) and l.attr == 'highest_cleared'
@@ -114,6 +138,56 @@ def run(ctx, repo):
                                     'the bar may come down in a jump-off, so a later clearance can be lower' % unparse(n),
                                     'jump-off clearance at 1.99 after a best of 2.00')
     ctx.floor('stores to highest_cleared outside __init__', n_sites, 1)
+
+    # ---- R5 the card index of the best moves only when the best rises (strictly): the countback components are read at
+    # that index, and in a jump-off the bar comes down, so a clearance at or below the best must leave it alone
+    n_idx = 0
+    for name, f in J.items():
+        if name == '__init__':
+            continue
+        for n in ast.walk(f):
+            if not isinstance(n, (ast.Assign, ast.AugAssign)):
+                continue
+            tg = n.targets if isinstance(n, ast.Assign) else [n.target]
+            flat = []
+            for t in tg:
+                flat += t.elts if isinstance(t, (ast.Tuple, ast.List)) else [t]
+            if not any(isinstance(t, ast.Attribute) and t.attr == 'highest_cleared_index' for t in flat):
+                continue
+            n_idx += 1
+
+            def strict_rise(test):
+                return rise_guard(test, None, strict=True)
+            ok = False
+            guard = None
+            c, p = n, getattr(n, '_parent', None)
+            while p is not None and p is not f:
+                if isinstance(p, ast.If) and c in p.body and strict_rise(p.test):
+                    ok, guard = True, p
+                c, p = p, getattr(p, '_parent', None)
+            if isinstance(n, ast.Assign) and isinstance(n.value, ast.IfExp) and strict_rise(n.value.test) \
+                    and is_attr(n.value.orelse, 'highest_cleared_index'):
+                ok, guard = True, n
+            if ok:
+                # the comparison must see the previous best: no store to the best before the guard in this function
+                for m in ast.walk(f):
+                    if isinstance(m, (ast.Assign, ast.AugAssign)) and m.lineno < guard.lineno and any(
+                            isinstance(t, ast.Attribute) and t.attr == 'highest_cleared'
+                            for t in (m.targets if isinstance(m, ast.Assign) else [m.target])):
+                        ok = False
+            if ok:
+                ctx.ok('R5', 'Jumper.%s: the index of the best is stored only under `%s`' % (
+                    name, unparse(guard.test if isinstance(guard, ast.If) else guard.value.test)))
+            else:
+                ctx.finding('R5', '%s::Jumper.%s::index of the best moves without the best rising' % (HJ, name), HJ, n.lineno,
+                            'highest_cleared_index is stored (%s) on every clearance; the countback components of ranking_key are read at '
+                            'that index, so a jump-off clearance at or below the best moves it to the jump-off entry and the failures of '
+                            'the jump-off and of the heights above the best are counted into the totals: a jump-off loser can drop behind '
+                            'an athlete who was not tied for first' % unparse(n),
+                            {'matrix': [['bib', '1.90', '2.00', '2.03', '2.03', '2.00', '2.01'], ['A', 'o', 'o', 'xxx', 'x', 'o', 'o'],
+                                        ['B', 'o', 'o', 'xxx', 'x', 'o', 'x'], ['D', 'xo', 'o', 'xxx']],
+                             'expected': 'B (jump-off participant) 2nd, D 3rd'})
+    ctx.floor('stores to highest_cleared_index outside __init__', n_idx, 1)
 
     # ---- R2 ranking key
     rk = J.get('ranking_key')
